@@ -153,6 +153,7 @@ theorem parseDF_good (hQ : Q.falsyRoute = false) (h : Rel E pd pu) (c c' : Ctx)
     have hfield : ∃ t, (s, t) ∈ fields := by
       cases hk : kv.1 with
       | int i => simp [hk] at hkv
+      | other n => simp [hk] at hkv
       | str s0 =>
         simp only [hk] at hkv
         cases hl : fields.lookup s0 with
